@@ -313,7 +313,7 @@ static void check_component_metric(Ctx &ctx, vproxy &px, std::string const &cvna
       }
       if (singular) { r.count("gradient_singular_skipped"); continue; }
       r.count("gradient_checks");
-      double h = 1e-5;
+      double h = 1e-4;
       for (size_t k = 0; k < a.c.size(); k++) {
         V t; t.c.assign(a.c.size(), 0.0); t.c[k] = 1.0;
         if (unitv) {  // project the direction on the tangent plane of the sphere at a
@@ -323,9 +323,14 @@ static void check_component_metric(Ctx &ctx, vproxy &px, std::string const &cvna
           if (n < 1e-6) continue;
           for (auto &q : t.c) q /= n;
         }
-        V ap = axpy(1.0, a, h, t), am = axpy(1.0, a, -h, t);
-        if (unitv) { ap = norml(ap); am = norml(am); }
-        double fd = (d2of(ap, b) - d2of(am, b)) / (2 * h);
+        // central differences at h and h/2, Richardson-extrapolated (near the antipode of the sphere the squared distance
+        // has a large third derivative and a plain central difference is off by ~1e-6)
+        auto cd = [&](double hh) {
+          V ap = axpy(1.0, a, hh, t), am = axpy(1.0, a, -hh, t);
+          if (unitv) { ap = norml(ap); am = norml(am); }
+          return (d2of(ap, b) - d2of(am, b)) / (2 * hh);
+        };
+        double fd = (4.0 * cd(0.5 * h) - cd(h)) / 3.0;
         double an = 0; for (size_t q = 0; q < a.c.size(); q++) an += gv[q] * t.c[q];
         if (!close_rel(an, fd, std::max(1.0, std::fabs(fd)), 1e-6, 1e-7)) {
           viol(ctx, "grad-is-not-the-derivative-of-dist2", det + ",\"direction\":" + std::to_string(k) + ",\"reported\":" + num(an) + ",\"finite_difference\":" + num(fd) + "}");
@@ -359,6 +364,12 @@ int main(int argc, char **argv)
   for (double x : {-1.5, 0.0, 2.0}) for (double y : {-0.5, 0.0, 3.0}) for (double z : {0.0, 1.0}) vec3.push_back(V{{x, y, z}});
   for (int x = -1; x <= 1; x++) for (int y = -1; y <= 1; y++) for (int z = -1; z <= 1; z++)
     if (x || y || z) unit.push_back(norml(V{{(double) x, (double) y, (double) z}}));
+  // nearly (not exactly) antipodal and nearly identical partners of lattice directions: 172-179.7 degrees and 0.3-3 degrees
+  unit.push_back(norml(V{{-1.0, 0.05, 0.0}}));
+  unit.push_back(norml(V{{-1.0, 0.0, 0.12}}));
+  unit.push_back(norml(V{{0.005, -1.0, 0.002}}));
+  unit.push_back(norml(V{{1.0, 0.05, 0.0}}));
+  unit.push_back(norml(V{{0.0, 0.005, 1.0}}));
   if (thorough) {
     unit.push_back(norml(V{{0.3, -0.5, 0.8}}));
     unit.push_back(norml(V{{1e-4, 1.0, 0.0}}));
